@@ -15,7 +15,8 @@ From Coq Require Import List Bool Arith NArith.
 Import ListNotations.
 Require Import PV.TypeVar.Base PV.TypeVar.Model PV.TypeVar.Spec PV.TypeVar.Simple PV.Call.Model.
 Require Import PV.Binder.Kind PV.Binder.Sig PV.Binder.Bind PV.Binder.PyBind.
-Require Import PV.Proofs.CallMain PV.Proofs.CallAtoms PV.Proofs.SolveAtoms.
+Require Import PV.Proofs.CallMain PV.Proofs.CallAtoms PV.Proofs.SolveAtoms PV.Proofs.CallCore.
+Require PV.Core.Obj PV.Core.Val PV.Core.Cls PV.Core.Member PV.Core.CanAssignK PV.Proofs.C03Main.
 Require Import PV.Gen.Solve PV.Gen.SolveAtoms PV.Gen.CallObjs.
 
 (* C05 composed: "a call that binds" — for every valid signature and every concrete
@@ -122,6 +123,20 @@ Theorem C06_atoms_identity_result_member : forall s c b p k o,
   member o (snd (check_call atom_ops rrs_limit s c)) = true.
 Proof. exact (identity_result_member atom_ops rrs_limit obj_val member acc_literal_is_member). Qed.
 Print Assumptions C06_atoms_identity_result_member.
+
+(* C03 composed: over the merged Core value model (every class table `ct`; any operations
+   whose acceptance of a literal is Core's model `ca` of T.can_assign(KnownValue(o))), with
+   Core's structural membership as the specification, on calls whose (declared type,
+   literal) pairs are inside C03's guard `ok` *)
+Theorem C06_core_diagnosed_iff_some_argument_not_member_partial :
+  forall (ct : PV.Core.Cls.class_table) (O : ops PV.Core.Val.val) limit,
+  (forall T o, acc O T (kv o) = PV.Core.CanAssignK.ca ct T o) ->
+  forall s c b, no_tv s = true -> cbind s c = Some b -> literal_args kv b ->
+  (forall p vs T o, In (p, BVals vs) b -> ann p = AnnTy T -> In (AV (kv o)) vs -> PV.Proofs.C03Main.ok ct T o) ->
+  (diagnosed O limit s c = true <->
+   exists p vs T o, In (p, BVals vs) b /\ ann p = AnnTy T /\ In (AV (kv o)) vs /\ PV.Core.Member.member ct T o = false).
+Proof. exact core_diagnosed_iff_nonmember_partial. Qed.
+Print Assumptions C06_core_diagnosed_iff_some_argument_not_member_partial.
 
 (* non-trivial inputs:  def f(p0: T, /, p1: Callable[[T], U], *va: T, k: int = 0) -> T   (T, U unbounded) *)
 Example C06_examples :
